@@ -18,6 +18,12 @@ def resolve_sheet(sheet_str):
     return sheet_match.group("quoted") or sheet_match.group("notquoted")
 
 
+def strip_absolute(addr):
+    """Remove the absolute markers ($) from the coordinates of a reference."""
+    sheet, sep, coord = addr.rpartition('!')
+    return sheet + sep + coord.replace('$', '')
+
+
 def resolve_address(addr):
     # Addresses without sheet name are not supported.
     sheet_str, addr_str = addr.split('!')
